@@ -575,10 +575,22 @@ def run_cases(ctx: Ctx, cases, props, label="random", known_sig=None):
             continue
         ctx.traces_validated += 1
         pred_fail = [f for fl in im["preds"] for f in fl if f["prop"] in props]
+        # a traced address whose lookup in the trace's own choice map RAISES (the model holds a value there):
+        # a defect of the choice map, not of the operation; reported as a predicate failure of its own
+        # and kept out of the comparison of choices
+        for m1, i1 in zip(mo, im["results"]):
+            errs = (i1.get("tr") or {}).get("lookup_errors") or {}
+            hit = [q for q in (m1.get("tr") or {}).get("choices", {}) if q in errs]
+            if hit:
+                pred_fail.append({"prop": "C17", "why": "looking up a traced address in the trace's own choice map raised",
+                                  "paths": [str(q) for q in hit], "error": str(errs[hit[0]])[:160]})
+                for q in hit:
+                    m1["tr"]["choices"].pop(q, None)
+                break
         for f in pred_fail:
             sig = signature(case, f)
             ctx.fail("predicate", _jsonable(case), f, sig, "property predicate on implementation")
-        if pred_fail:
+        if pred_fail and not all(f["prop"] == "C17" for f in pred_fail):
             continue
         diffs = []
         for i, (m1, i1) in enumerate(zip(mo, im["results"])):
